@@ -404,6 +404,7 @@ func runC12(e *Engine, r *Report) {
 	c12Pool(e, r)
 	ruleStopBeforeTerminate(e, r)
 	ruleQueueAdmission(e, r)
+	ruleLogQueryAnswered(e, r)
 }
 
 // c12Detach: the notified request is detached from its table on every path.
